@@ -17,18 +17,6 @@ Init == l = 1 /\ ep = "" /\ live = FALSE /\ map = EmptyMap /\ slots = << >> /\ c
 Has(r, f) == f \in DOMAIN r
 Report(fails) == IF fails = {} THEN TRUE ELSE PrintT(<< "FAIL", l, ep, fails >>)
 
-(* the observed vectors in the shape of Status!vec *)
-ObsVec(e) == [k \in 1..Len(e.snap) |->
-                 [dev |-> e.snap[k].dev, pkt |-> e.snap[k].pkt,
-                  ifs |-> [j \in 1..Len(e.snap[k].ifs) |-> [id |-> e.snap[k].ifs[j].id, pkt |-> e.snap[k].ifs[j].pkt]]]]
-
-LookupsOK(e) ==
-    LET v == ObsVec(e) IN
-    /\ e.count = Len(v)
-    /\ \A x \in 1..Len(e.devlookup) : e.devlookup[x].idx = LookupDev(v, e.devlookup[x].dev)
-    /\ \A k \in 1..Len(v) : \A x \in 1..Len(e.snap[k].iflookup) :
-           e.snap[k].iflookup[x].idx = LookupIf(v[k].ifs, e.snap[k].iflookup[x].id)
-
 After(e) ==
     CASE e.e = "st.new" -> EmptyMap
       [] e.e = "st.clear" -> EmptyMap
